@@ -87,7 +87,7 @@ def run_row(row, tmpdir):
             try:
                 got_ = list(jsonutils.reverse_iter_lines(fs_, blocksize=bs))
                 if got_ not in want_sig:
-                    bad.append(("text-file/utf-8-sig", [list(x.encode("utf-8")) for x in got_]))
+                    bad.append(("text-file/utf-8-sig", [list(x.encode("utf-8") if isinstance(x, str) else x) if isinstance(x, (str, bytes)) else repr(x) for x in got_]))
             except Exception as ex:
                 bad.append(("text-file/utf-8-sig", "raised:" + core.exc_name(ex)))
         except UnicodeDecodeError:
@@ -108,7 +108,7 @@ def run_row(row, tmpdir):
                     bad.append((label, "raised:" + core.exc_name(ex)))
                     continue
                 if got_ not in want_:
-                    bad.append((label, [list(x.encode("utf-8")) for x in got_]))
+                    bad.append((label, [list(x.encode("utf-8") if isinstance(x, str) else x) if isinstance(x, (str, bytes)) else repr(x) for x in got_]))
     # a reader standing in mid-file (preseek=False): the lines of what lies before the cursor
     if bs in (2, 5) and len(content) > 1 and "pre" in row:
         for k_, exp_ in row["pre"]:
